@@ -186,29 +186,32 @@ CLAIMS = {
 }
 
 
-# rules added in rounds 3/4 (DESIGN.md section 8.7), appended to the level text of each property
+# rules added in rounds 3-5 (DESIGN.md sections 8.7-8.9), appended to the level text of each property
 ADDED = {
-    "C02": "R6: the int-specialised equality instruction falls back to the generic equality for operands of another type.",
-    "C04": "R5: every native that takes the mutable view of a list/dict/set on some path takes it on every successful path.",
+    "C02": "R6: the int-specialised equality instruction falls back to the generic equality for operands of another type. R7: the `type(x) == T` inlining is built only under a test that the parameter is positional; R8: post_freeze optimises against the def's own module; R9: assignments, augmented assignments and returns are never optimised away; R10: optimize reads every component of the statement it rebuilds.",
+    "C04": "R5: every native that takes the mutable view of a list/dict/set on some path takes it on every successful path. R6: an augmented assignment is never optimised away (shared with C02.R9).",
     "C05": "R3: byte offsets in the lexer are computed only from positions, byte lengths and constants; R4: no "
-           "`pos() - const` after a helper consumed an unknown number of characters (error spans on char boundaries).",
-    "C06": "R4: all three slice components are optional (expression-free CFG paths after each colon).",
+           "`pos() - const` after a helper consumed an unknown number of characters (error spans on char boundaries). R5: the panicking CodeMap line accessors are called only by reviewed callers whose line number comes from the same map.",
+    "C06": "R4: all three slice components are optional (expression-free CFG paths after each colon). R5: Dedent tokens are emitted only after the new indentation was found equal to an open level.",
     "C07": "R8 extended to range slicing (bounds from position-producing std functions / validated conversions); R9: every "
            "overflow-checked signed + - * is proven exact by interval analysis or reviewed; R10: module slot reads are total "
-           "after a failed evaluation; the depth-counter balance rule accepts the guard before or after the write.",
+           "after a failed evaluation; the depth-counter balance rule accepts the guard before or after the write. R12: the top of the preallocated call stack is located through `count`, never through the whole array.",
     "C09": "R6: nothing reachable from number comparison rounds an integer of arbitrary size to a float (exact mixed "
            "int/float comparison, transitivity); R7: struct ordering compares values in key-sorted order.",
-    "C10": "R4: float<->int `as` casts in the number code are exact by width (<= 32 bits) or reviewed.",
-    "C12": "R5: a builtin that iterates an argument and calls back into Starlark keeps the iterator alive during the callbacks.",
+    "C10": "R4: float<->int `as` casts in the number code are exact by width (<= 32 bits) or reviewed. R5: the panicking small-int % and / are reached only after a sign test or a test of the dividend.",
+    "C12": "R5: a builtin that iterates an argument and calls back into Starlark keeps the iterator alive during the callbacks. R7: the iterator adapter releases the container only when iter_next reported exhaustion.",
     "C13": "R4: the reference sets of Heap/FrozenHeap only grow (who-may-write, no take/clear/replace).",
     "C14": "R4: the thread-local recursion-depth counter is written only together with the guard that restores it.",
     "C16": "R3: the annotation of *args/**kwargs is applied element-wise; R4: union normalisation merges no alternatives "
-           "(two known findings); R5: typing types (Ord by name, Eq by id) are never keys of ordered collections.",
-    "C17": "R2: an aliased load is typed under the exported name, as the evaluator looks it up.",
-    "C18": "R4: the debugger's breakpoint-suppression counter is lowered on every exit of evaluate_expr (or by a Drop guard).",
+           "(two known findings); R5: typing types (Ord by name, Eq by id) are never keys of ordered collections. R6: the annotation of an assignment survives the re-optimisation on freeze; R7: record/enum type identity must be unique per created type (two known findings).",
+    "C17": "R2: an aliased load is typed under the exported name, as the evaluator looks it up. R3: typing code never unwraps the scope-resolution payload of an identifier.",
+    "C18": "R4: the debugger's breakpoint-suppression counter is lowered on every exit of evaluate_expr (or by a Drop guard). R5: the debugger's breakpoint table is keyed by position (Span), never by a CodeMap-identity type.",
     "C19": "R2: the IDE binder visits the first comprehension iterable into the enclosing scope, like the compiler "
-           "(quick tier uses the `full` extraction, which contains the LSP crate).",
-    "C20": "R4: only values allocated by the running freezer are registered for FrozenDef::post_freeze.",
+           "(quick tier uses the `full` extraction, which contains the LSP crate). R3: editor-supplied line numbers never reach a panicking line accessor; R4: every unwrap/expect of the LSP crate is a reviewed site; R5: client columns are never added to a Pos with the checked `+`.",
+    "C20": "R4: only values allocated by the running freezer are registered for FrozenDef::post_freeze. R2 additionally requires that statics holding value addresses are thread-local.",
+    "C03": "R1 also requires that a generic container's Trace impl reaches the trace of every Trace-bounded type parameter.",
+    "C11": "R3: the hash index of a map is only replaced by None or by a table filled from the entries.",
+    "C15": "unchanged in rounds 3-5 (seeds C15-3 and C15-5 were caught by R1 / R2 as first written).",
 }
 
 CLAIMS["C08"] = (
@@ -230,7 +233,7 @@ def main():
     for p in sorted(CLAIMS):
         tech, text, note, ref = CLAIMS[p]
         if p in ADDED:
-            text = text + " Added in rounds 3/4: " + ADDED[p]
+            text = text + " Added in rounds 3-5: " + ADDED[p]
         checks.append(dict(
             property_id=p,
             quick_cmd="./check %s --tier quick" % p,
